@@ -474,7 +474,7 @@ def drive(prop, tier, seed, only=None, jobs=None, scale=1.0):
             cur = out + ".cur"
             tail = ""
             try:
-                tail = open(out + ".log").read()[-3000:]
+                tail = open(out + ".log", errors="replace").read()[-3000:]
             except OSError:
                 pass
             if "Sanitizer" not in tail and "runtime error" not in tail:
